@@ -129,9 +129,9 @@ def clear (c : Core) (d : Disk) (start fin : Nat) : Step Unit :=
       | .error e => { core := c1, result := .error e, journal := j1 }
       | .ok (lo, ll) =>
         if lo + ll < off then { core := c1, result := .error .panic, journal := j1 } else
-        let j2 : List SOp := [.del .data off (lo + ll - off)]
-        -- the backend refuses a delete that starts beyond the end of the file
-        if off > (d.applyAll j1).data.size then { core := c1, result := .error .err, journal := j1 } else
+        -- the backend refuses a delete that starts beyond the end of the file; the storage layer
+        -- treats that as "nothing left to delete" (no operation reaches the store)
+        let j2 : List SOp := if off > (d.applyAll j1).data.size then [] else [.del .data off (lo + ll - off)]
         let (c2, j3) := c1.maybeFlush
         { core := c2, result := .ok (), journal := j1 ++ j2 ++ j3 }
 
